@@ -89,6 +89,17 @@ CHECKS = {
         "all 31 non-empty in thorough.",
         design="4/C08",
     ),
+    "C13": dict(
+        text="Relational check whose reference is the real code: for each union program (by-type, sequential, Optional, "
+        "nested, constrained, with unsupported members, discriminated by default / explicit / partial mapping, by Literal "
+        "field, inherited discriminator, inside a list, TaggedUnion) and every symbolic datum within bounds, the compiled "
+        "union method must accept iff some alternative's own compiled method accepts, return a value equal to the first "
+        "accepting alternative's, and on rejection report exactly the merged errors of the alternatives; the discriminated "
+        "method must agree with the alternative selected by the key; with and without coercion. Serialization: equal to "
+        "the first alternative whose class matches, discriminator key emitted, value round-trips.",
+        note="Under coercion str/float leaves come from finite pools (C03 note). Alternatives are flattened as typing does.",
+        design="4/C13",
+    ),
 }
 
 NOT_YET = "check not built yet at this commit (work in progress, see DESIGN.md section 4)"
